@@ -199,9 +199,12 @@ def materialize(v, depth=0):
     return 'obj:' + type(v).__name__
 
 
+TIMEOUTS = dict(limit=1.0, base=1.0, seen=0, tuples_rerun=0, confirmed=0)
+
+
 def outcome(thunk):
     signal.signal(signal.SIGALRM, _alarm)
-    signal.setitimer(signal.ITIMER_REAL, 1.0)
+    signal.setitimer(signal.ITIMER_REAL, TIMEOUTS['limit'])
     try:
         try:
             r = thunk()
@@ -209,6 +212,7 @@ def outcome(thunk):
         finally:
             signal.setitimer(signal.ITIMER_REAL, 0)
     except Timeout:
+        TIMEOUTS['seen'] += 1
         return 'err:Timeout'
     except RecursionError:
         return 'err:RecursionError'
@@ -574,7 +578,7 @@ def eval_text(text, binds, ctx):
 
 
 def sweep_context(conv, root, rng, per_fd, sink, replay=None, model_reqs=None, where=None, call_budget=3, focus=(),
-                  text_tuples=40):
+                  text_tuples=40, rbase=None):
     """(A) over every definition of the context `root`, whose naming convention is `conv`"""
     global _CTX_VALUE
     defs = greg.all_definitions(root)
@@ -585,7 +589,7 @@ def sweep_context(conv, root, rng, per_fd, sink, replay=None, model_reqs=None, w
     names_count = {}
     for _, n2, _ in defs:
         names_count[n2] = names_count.get(n2, 0) + 1
-    rbase = rng.random()
+    rbase = rng.random() if rbase is None else rbase
     for di, (li, name, fd) in enumerate(defs):
         if replay and replay.get('def') != di:
             continue
@@ -619,6 +623,11 @@ def sweep_context(conv, root, rng, per_fd, sink, replay=None, model_reqs=None, w
             if replay and list(ch) != replay['choice']:
                 continue
             crng = common.make_rng(rbase, 'case/%d/%r' % (di, ch))
+            pending = []
+            seen_before = TIMEOUTS['seen']
+
+            def report(kind, key, what, rp, pending=pending):
+                pending.append((kind, key, what, rp))
             choice = {p.name: (None if c is None else cands[p.name][c]) for p, c in zip(vis + kwonly, ch)}
             labels = {p.name: (None if c is None else cands[p.name][c][0]) for p, c in zip(vis + kwonly, ch)}
             sp = spellings(fd, vis, kwonly, choice, conv)
@@ -718,7 +727,7 @@ def sweep_context(conv, root, rng, per_fd, sink, replay=None, model_reqs=None, w
             sink.case(common.digest(case), resolved and len(outs) >= 2, sample=case)
             for stag, vtag, direct, o, keys in call_fail:
                 nonstring = vtag.startswith('nonstring:')
-                sink.fail('oracle', 'call-nonstring-key:' + name if nonstring else 'call:' + name,
+                report('oracle', 'call-nonstring-key:' + name if nonstring else 'call:' + name,
                           '[%s context] %s %r spelling %s: made directly -> %s but call(%s, args, kwargs%s) -> %s' % (
                               conv, name, labels, stag.split('/')[0], direct[:100], name,
                               ' + keys %r that are no keywords' % (keys,) if keys else '', o[:100]),
@@ -727,7 +736,7 @@ def sweep_context(conv, root, rng, per_fd, sink, replay=None, model_reqs=None, w
                 diff = [(t, o) for t, o in outs if o != base and '/' not in t]
                 if diff:
                     kws = next((sorted(kwf) for tag, _, _, kwf in sp if tag == diff[0][0]), [])
-                    sink.fail('oracle', 'spelling:' + name,
+                    report('oracle', 'spelling:' + name,
                               '[%s context%s] %s %r: positional -> %s but %s (keywords %s) -> %s' % (
                                   conv, ' #%d of %s' % (where['ctx_index'], '>'.join(where['order'])) if where else '',
                                   name, labels, base[:120], diff[0][0], ', '.join(kws), diff[0][1][:120]), case)
@@ -736,7 +745,7 @@ def sweep_context(conv, root, rng, per_fd, sink, replay=None, model_reqs=None, w
                     # AMBIGUOUS (not: answered by another overload that owns these names) contradicts the statement
                     amb = [(t, o) for t, o in outs_u if o.startswith('err:Ambiguous')]
                     if amb:
-                        sink.fail('oracle', 'kw-ambiguous:' + name,
+                        report('oracle', 'kw-ambiguous:' + name,
                                   '[%s context] %s %r: positional -> %s but by keyword (%s) -> %s' % (
                                       conv, name, labels, base[:80], amb[0][0], amb[0][1]), case)
                     else:
@@ -746,7 +755,7 @@ def sweep_context(conv, root, rng, per_fd, sink, replay=None, model_reqs=None, w
                         bump('name-resolution-spellings', len(outs_u))
                         if du:
                             kws = next((sorted(kwf) for tag, _, _, kwf in sp if tag == du[0][0]), [])
-                            sink.fail('oracle', 'spelling-overloaded:' + name,
+                            report('oracle', 'spelling-overloaded:' + name,
                                       '[%s context] %s %r through name resolution (all overloads of the name): positional '
                                       '-> %s but %s (keywords %s) -> %s' % (conv, name, labels, base[:120], du[0][0],
                                                                             ', '.join(kws), du[0][1][:120]), case)
@@ -767,11 +776,26 @@ def sweep_context(conv, root, rng, per_fd, sink, replay=None, model_reqs=None, w
                             tdiff.append((t[0] + '/call()', txt, o, t[3], t[4]))
                 if tdiff:
                     d = tdiff[0]
-                    sink.fail('oracle', 'text-spelling:' + name,
+                    report('oracle', 'text-spelling:' + name,
                               '[%s context%s] %s %r written as text: `%s` -> %s but `%s` -> %s' % (
                                   conv, ' #%d of %s' % (where['ctx_index'], '>'.join(where['order'])) if where else '',
                                   name, labels, tbase[1], tbase[2][:100], d[1], d[2][:100]),
                               dict(case, text=d[1], text_base=tbase[1]))
+            if pending and TIMEOUTS['seen'] > seen_before and TIMEOUTS['limit'] < 5.0:
+                # a spelling of this tuple ran into the wall-clock limit: on a loaded machine a stalled process looks like a
+                # call that does not terminate.  The whole tuple once more with a generous limit; what it reports counts
+                TIMEOUTS['tuples_rerun'] += 1
+                TIMEOUTS['limit'] = 8.0
+                try:
+                    again = Sink()
+                    sweep_context(conv, root, None, per_fd, again, replay=dict(case, **{'def': di, 'choice': list(ch)}),
+                                  where=where, call_budget=call_budget, focus=focus, text_tuples=text_tuples, rbase=rbase)
+                finally:
+                    TIMEOUTS['limit'] = TIMEOUTS['base']
+                pending[:] = [tuple(f) for f in again.fails]
+                TIMEOUTS['confirmed'] += 1 if pending else 0
+            for f in pending:
+                sink.fail(*f)
             # (B) the model on the same spellings, against the real definition's own binding
             if model_reqs is not None:
                 calls = []
@@ -1055,6 +1079,8 @@ def worker_main(req, ctxs):
         sink.bump('context:%s' % conv)
         sink.bump('tuples:%s#%d-of-%s' % (conv, i, '>'.join(o[0] for o in order)),
                   sink.hist.get('tuples', 0) - before.get('tuples', 0))
+    for k in ('seen', 'tuples_rerun', 'confirmed'):
+        sink.bump('timeouts-' + k, TIMEOUTS[k])
     return dict(hist=sink.hist, cases=sink.cases, fails=sink.fails, ties=sink.ties)
 
 
@@ -1336,6 +1362,7 @@ def run(env, res):
     if not replay or replay.get('kind') == 'arglist':
         import props.c12args as c12args
         c12args.run(env, res, hist)
+    hist['timeouts (main interpreter)'] = dict(TIMEOUTS)
     res.extra['histogram'] = hist
     return res
 
